@@ -1,6 +1,8 @@
 package jsoac
 
 import (
+	"regexp"
+
 	"github.com/jsightapi/jsight-schema-core/notations/jschema"
 	"github.com/jsightapi/jsight-schema-core/zzverif"
 	"github.com/jsightapi/jsight-schema-core/zzverif/zzjson"
@@ -261,4 +263,33 @@ func VerifC08_Trees() {
 		// one variation the schema's own rules accept: null for a nullable root
 		zzverif.Assert(oValidNode(newNode(ast), &oVal{kind: 'z'}, types, 0), "null is a valid instance of the Schema Object of a nullable schema")
 	}
+}
+
+// VerifC08_Pattern: `"example" // {regex: "..."}` over concrete patterns with
+// escapes: the Schema Object's `pattern` is ONE JSON string that decodes to
+// exactly the regular expression the rule denotes, and the example matches it
+// (ECMA and RE2 agree on these patterns; the regexp engine is host code).
+func VerifC08_Pattern() {
+	zzverif.Expect("accepted")
+	// spelling inside the annotation string / the pattern it denotes / an example spelling / its value
+	table := [][4]string{
+		{"^[a-c]+$", "^[a-c]+$", "abc", "abc"}, {"^x\\\\d$", "^x\\d$", "x1", "x1"}, {"^\\u0041$", "^A$", "A", "A"},
+		{"^\\\"$", "^\"$", "\\\"", "\""}, {"^a\\\\.b$", "^a\\.b$", "a.b", "a.b"}, {"^\\\\\\\\$", "^\\\\$", "\\\\", "\\"},
+		{"^<&>$", "^<&>$", "<&>", "<&>"}, {"^é€$", "^é€$", "é€", "é€"}, {"a\\tb", "a\tb", "a\\tb", "a\tb"}, {"^\\\\/$", "^\\/$", "/", "/"},
+	}
+	r := table[zzverif.IntRange("row", 0, len(table)-1)]
+	s := jschema.New("root", `"`+r[2]+`" // {regex: "`+r[0]+`"}`)
+	if s.Check() != nil {
+		return
+	}
+	zzverif.Reach("accepted")
+	ast, _ := s.GetAST()
+	p, ok := newNode(ast).(*Primitive)
+	zzverif.Assert(ok && p.Pattern != nil, "a string with a regex rule converts to a primitive with a pattern")
+	if !ok || p.Pattern == nil {
+		return
+	}
+	evs, isJSON := zzjson.Decode(p.Pattern.value)
+	zzverif.Assert(isJSON && len(evs) == 1 && evs[0].Kind == 's' && evs[0].Val == r[1], "`pattern` is a JSON string that decodes to exactly the rule's regular expression")
+	zzverif.Assert(regexp.MustCompile(r[1]).MatchString(r[3]), "the example is matched by the generated pattern")
 }
